@@ -546,3 +546,41 @@ Q(id='C06.readers', props=['C06', 'C04', 'C05'], cls='B', harness='c06_readers.c
   srcs=['lib/src/msa_alloc.c', 'lib/src/msa_op.c', 'lib/src/msa_misc.c', 'lib/src/alphabet.c', 'lib/src/tlmisc.c'], native_srcs=READER_NATIVE,
   trusted=[TRUST_MSG, 'strstr/strnlen loop stubs', 'realloc byte-copy stub', 'isalpha/ispunct/isspace: CBMC C-locale models', 'R3 capacity shrink (records 512 -> 4, residues 512 -> 2)'],
   assumptions=[A_NOFAIL, A_WRAP, 'bounded: 2-3 rows, 2-6 columns in blocks of 2-3 (the readers do not depend on the block constant 60), row bytes from {-,A,c,N}; header lines shortened to the keywords the readers look for'])
+
+# =========================================================================== C12 upgma
+def _upgma_shapes(tier):
+    s = [(3, 2), (4, 2), (4, 3)] if tier == 'quick' else [(3, 2), (4, 2), (4, 3), (5, 2), (5, 3), (5, 4)]
+    return [dict(name='n%d_k%d' % (n, k), defs=dict(KV_N=n, KV_K=k), unwind=n + 3) for n, k in s]
+KMEANS_NATIVE = ['lib/src/tldevel.c', 'lib/src/tlmisc.c', 'lib/src/tlrng.c', 'lib/src/sequence_distance.c', 'lib/src/bpm.c', 'lib/src/euclidean_dist.c', 'lib/src/pick_anchor.c',
+                 'lib/src/task.c', 'lib/src/msa_alloc.c', 'lib/src/esl_stopwatch.c', 'lib/src/alphabet.c']
+Q(id='C12.upgma', props=['C12'], cls='B', harness='c12_upgma.c', entry='h_c12_upgma', shapes=_upgma_shapes,
+  mode='wrap', timeout=1200, funcs=['upgma', 'alloc_node'], native_srcs=KMEANS_NATIVE, cbmc_flags=['--depth', '200000'],
+  trusted=[TRUST_MSG], assumptions=[A_NOFAIL, A_WRAP, A_FLOAT, 'bounded: 3-4 (thorough 5) leaves, 2-3 copies; distances symbolic floats under the premise of C12 as delivered by d_estimation (copy-copy = length term <= 1, copy-other >= 1.0001 and equal for all copies)'])
+PROPS['C12'] = dict(
+    level='other',
+    level_text=('chain of component checks: bpm_block / bpm equal the edit-distance reference (C11.bpm_block, so identical sequences are at distance 0 and non-contained ones at >= 1); '
+                'upgma (exact tree for < 100 sequences) is checked bounded to put the copies of a sequence into a subtree of their own whenever the distance matrix satisfies the premise; '
+                'identical groups then align without gaps and move as a block (C07 / C10 component checks)'),
+    level_note='bounded (3-5 leaves); the d_estimation length term and the induction over multiplicity are meta-arguments; the diagonal alignment of identical groups (C08) is not under a finished check',
+    technique=T_CB + ' (harness-enforced), bounded unwinding with bit-precise floats; native replay',
+    explanation=EXPL_COMMON)
+
+# =========================================================================== C02 frames
+for _k, _kn in ((0, 'seqseq'), (1, 'seqprofile'), (2, 'profileprofile')):
+    for _w, _fn in ((0, 'foward'), (1, 'backward'), (2, 'meetup')):
+        _f = 'aln_%s_%s' % (_kn, _fn)
+        Q(id='C02.frame.%s' % _f, props=['C02', 'C07'], cls='P', harness='c02_frames.c', entry='h_c02_frames', defs=['-DKV_WHICH=%d' % _w, '-DKV_KERNEL=%d' % _k],
+          mode='dfcc', enforce=[_f], unwind=26, timeout=900, replayable=False, funcs=[_f], trusted=[TRUST_MSG],
+          unwindset={'h_c02_frames.%d' % _i: 400 for _i in range(0, 12)},
+          assumptions=['frame (assigns clause) enforced on the real body for a 2x3 problem with symbolic residues / fixed profiles; the set of store instructions does not depend on the problem size',
+                       'fabsf: CBMC library model'])
+PROPS['C02'] = dict(
+    level='other',
+    level_text=('what a contract can say about concurrency here: the write frame of every function that runs as an OpenMP task in the parallel Hirschberg step is proved (forward: only m->f; backward: only m->b; '
+                'meet-in-the-middle: only its three out-parameters) for all three kernels, and static facts pin the task / taskwait order (children before the merge, both halves before the meetup, four k-means restarts before the fixed-order reduction), '
+                'the absence of thread-id dependent code, of critical/atomic sections, of random numbers and of mutable static storage; per-merge aln_mem is private'),
+    level_note=('the schedule quantifier itself is outside contract-based verification (CBMC ignores OpenMP): "race-free tasks with disjoint write frames joined by taskwait compute a schedule-independent result" is a meta-argument; '
+                'frames of do_align / split2 / bpm_block are not under DFCC; a change that keeps frames and pragmas but alters results by thread count some other way is not detected'),
+    technique=T_CB + ' (assigns clauses enforced by goto-instrument --dfcc) + static facts on OpenMP pragma order',
+    explanation=EXPL_COMMON,
+    assumptions=['meta-argument from disjoint frames + taskwait order to schedule independence'])
